@@ -148,6 +148,22 @@ class P(Prop):
         ("TracklibVerif.Props.C03", "TV.C03.cmpZ_toZ", "the comparison cascades on float-path stamps are those of the integer model"),
         ("TracklibVerif.Props.C03", "TV.C03.readUnixG_monotone", "0 <= x <= y implies readUnixTime(x) <= readUnixTime(y)"),
         ("TracklibVerif.Props.C03", "TV.C03.default_is_epoch", "ObsTime() is the stamp of instant 0"),
+        ("TracklibVerif.Props.C03", "TV.C03.zone_not_read", "toAbsTime(), -, the round trip, addSec/Min/Hour/Day and getDayOfWeek never read the zone label: same fields, other label, same answers"),
+        ("TracklibVerif.Props.C03", "TV.C03.results_zone", "readUnixTime / addSec ... / the round trip return an object in zone 0 whatever the operand's label; convertToZone(z) returns one labelled z"),
+        ("TracklibVerif.Props.C03", "TV.C03.convertToZoneG_eq", "convertToZone(z) on a well-formed stamp labelled z0, run operation for operation in exact arithmetic, = the integer model's stamp at toAbsMs + 3 600 000 (z - z0), labelled z"),
+        ("TracklibVerif.Props.C03", "TV.C03.convertToZone_spec", "convertToZone: well formed, moves the instant by exactly z - z0 hours, keeps toAbsTime() - 3600*zone, keeps the minute, second and millisecond fields"),
+        ("TracklibVerif.Props.C03", "TV.C03.convertToZone_back", "converting to a zone and back gives the stamp one started from"),
+        ("TracklibVerif.Props.C03", "TV.C03.convertToZone_same", "converting to the zone the stamp is in changes nothing"),
+        ("TracklibVerif.Props.C03", "TV.C03.convertToZone_comp", "two zone conversions in a row are one"),
+        ("TracklibVerif.Props.C03", "TV.C03.convertToZone_order", "two stamps of one zone converted to one zone keep <, >, == and their distance"),
+        ("TracklibVerif.Props.C03", "TV.C03.setTimeZone_spec", "Track.setTimeZone(z) relabels only: calendar fields untouched, every label z, getTimeZone() = z"),
+        ("TracklibVerif.Props.C03", "TV.C03.convertToTimeZone_eq", "Track.convertToTimeZone(z) is convertToZone(z) stamp by stamp (each with its own label), exact arithmetic"),
+        ("TracklibVerif.Props.C03", "TV.C03.addSeconds_whole", "Track.addSeconds(k), k whole (negative included): every stamp moves by exactly k seconds; results in zone 0"),
+        ("TracklibVerif.Props.C03", "TV.C03.dayOfWeek_spec", "getDayOfWeek() of a well-formed stamp is (proleptic Gregorian day number + 3) mod 7 in Mon..Sun, whatever the label"),
+        ("TracklibVerif.Props.C03", "TV.C03.step_frame", "objects: no conversion, offset, comparison, copy or Track.convertToTimeZone/addSeconds changes an existing object (its operand included); only `o.field = v` and Track.setTimeZone write, and only into their targets"),
+        ("TracklibVerif.Props.C03", "TV.C03.step_fresh", "objects: a call that returns a stamp returns a new object (appended to the store), and readUnixTime(x) does not depend on the state"),
+        ("TracklibVerif.Props.C03", "TV.C03.read_again", "readUnixTime(x) after any program run on its earlier result (attribute assignments included) gives the same stamp again"),
+        ("TracklibVerif.Props.C03", "TV.C03.printZone_inj", "printZone() is Z exactly for zone 0 and distinct zones -24..+24 print differently"),
     ]
     partial = []
     open_statements = ["IEEE rounding is outside the theorems (ordered field, exact int()): the two roundings of toAbsTime() (ms/1000.0 and the sum) make a stamp with a non-zero "
@@ -157,8 +173,19 @@ class P(Prop):
                 "month loop, int(e/86400), int(e/3600), int(e/60), int(e), ms = int(frac*1000)) and on integers (readUnixSec/readUnixMs); toAbsTime (integer `seconds`, then "
                 "float(seconds) + ms/1000.0); addSec/addMin/addHour/addDay with int, fractional and negative amounts; __sub__; __eq__/__ne__/__lt__/__gt__/__le__/__ge__; "
                 "ObsTime() defaults. The generic definitions are instantiated at Float in the driver (bit-exact) and at an ordered field in the theorems. "
+                "The `zone` attribute and the objects (Model/ObsTimeZone.lean): ObsTime(..., zone=z), convertToZone, printZone, timeWithZone (fixed format + zone code; the print "
+                "format is put back), getDayOfWeek, copy, attribute assignment; core/track.py Track.setTimeZone / getTimeZone / convertToTimeZone / addSeconds on a track that "
+                "refers to the timestamp objects themselves; programs of such statements over a store in which every call that returns a stamp appends a new object "
+                "(driver command `prog`; the harness compares every output, the final state of every object, which objects are identical, which objects the track holds). "
                 "The string constructor / readTimestamp / __str__ are the C13 model (driver command C13.time), used here for the `ctor` stream")
-    rule = ("days enumerated from 1970-01-01 (all days to 2099 in thorough; the boundary days of every year in quick) x 4 intra-day instants; "
+    rule = ("programs of 3-20 statements on real objects (new with a zone label, readUnixTime of int / float / numpy scalars, addSec..addDay, convertToZone, copy, round trip, "
+            "attribute assignments that keep a stamp well formed, toAbsTime, the six comparisons, -, printZone, timeWithZone, getDayOfWeek, Track(...) on existing timestamp objects, "
+            "getTimeZone, setTimeZone, convertToTimeZone, addSeconds): a few seconds values, amounts and zones are drawn per program and used again and again, so the same conversion is "
+            "asked for before and after its earlier result was modified; half of the programs start from a template (same value read twice around a modification, same offset twice, "
+            "a zone conversion between two reads of the instant it lands on, a zone-labelled stamp through round trip/offset/order, a track labelled-shifted-converted, there-and-back); "
+            "every statement is judged by the oracle on the state its operands had when it ran; assignments are undone at the end of the case. convertToZone for every ordered pair of zones "
+            "-12..+14 on four boundary stamps. A third of the stamps of the day/cmp/add/addf/seq streams carry a zone label -12..+14 (ObsTime(..., zone=z)). "
+            "days enumerated from 1970-01-01 (all days to 2099 in thorough; the boundary days of every year in quick) x 4 intra-day instants; "
             "whole boundary days second by second; century years 2100..2400; ordered pairs one unit apart in each field; offsets crossing day/month/year; "
             "float instants up to year 2400 by class (uniform fraction, k/1000.0, fraction in [0.999,1) and [0.9995,1), 1-2^-j and 2^-j, one to a few ulps below/above a second, "
             "minute, hour, midnight, month or year boundary, interpolated t1+(t2-t1)*w, whole floats, below one day, negative = correspondence only); pairs of float instants "
@@ -176,11 +203,13 @@ class P(Prop):
     # ---------------------------------------------------------------- generators
     def exhaustive_scopes(self, tier):
         if tier == "thorough":
-            return ["every calendar day 1970-01-01..2099-12-31 x {00:00:00.000, 12:00:00.000, 23:59:59.999, random ms}",
+            return ["convertToZone there and back, comparison, printZone, timeWithZone, getDayOfWeek for every ordered pair of zones -12..+14 on 4 boundary stamps",
+                    "every calendar day 1970-01-01..2099-12-31 x {00:00:00.000, 12:00:00.000, 23:59:59.999, random ms}",
                     "every second within 30 min of both midnights of 28 Feb, 29 Feb/1 Mar, 31 Dec, 1 Jan for every year 1970..2099; every second of those four days for 1970, 1971, 1972, 1999, 2000, 2099 and two seeded years",
                     "boundary days of 2100, 2200, 2300, 2400",
                     "the doubles 1, 2 and 3 ulps below and 1 ulp above the first second of every year 1971..2100 and of every month of 1972, 1999, 2000, 2100"]
-        return ["boundary days (1 Jan, 28 Feb, 29 Feb or 1 Mar, 31 Dec) of every year 1970..2099 and of 2100, 2200, 2300, 2400 x 4 instants",
+        return ["convertToZone there and back, comparison, printZone, timeWithZone, getDayOfWeek for every ordered pair of zones -12..+14 on 4 boundary stamps",
+                "boundary days (1 Jan, 28 Feb, 29 Feb or 1 Mar, 31 Dec) of every year 1970..2099 and of 2100, 2200, 2300, 2400 x 4 instants",
                 "the doubles 1 ulp below and 1 ulp above the first second of every year 1971..2100"]
 
     def boundary_days(self, y):
